@@ -8,6 +8,7 @@ import (
 	"os"
 	"path/filepath"
 	"runtime/debug"
+	"sort"
 
 	"verif/internal/core"
 	"verif/internal/rules"
@@ -38,7 +39,9 @@ func main() {
 		}
 	}()
 	core.NamesFile = filepath.Join(filepath.Dir(filepath.Dir(func() string { e, _ := os.Executable(); return e }())), "testdata", "names.json")
+	core.HelpersFile = filepath.Join(filepath.Dir(core.NamesFile), "helpers.json")
 	if os.Args[1] == "gen-names" {
+		core.HelpersFile = ""
 		// records today's parameter and local names (see internal/core/names.go); run by hand
 		// when the rules are adapted to a new version of the repository, never by a check
 		core.NamesFile = ""
@@ -46,6 +49,13 @@ func main() {
 		c.Load("./amd/...", "./nvidia/...")
 		n := c.GenNames(os.Args[2])
 		fmt.Println("functions recorded:", n)
+		// the one-expression helpers of this version (see internal/core/inline.go)
+		sort.Strings(core.RecordedHelpers)
+		hb, _ := json.MarshalIndent(core.RecordedHelpers, "", " ")
+		if err := os.WriteFile(filepath.Join(filepath.Dir(os.Args[2]), "helpers.json"), hb, 0o644); err != nil {
+			panic(err)
+		}
+		fmt.Println("one-expression helpers recorded:", len(core.RecordedHelpers))
 		return
 	}
 	if os.Args[1] == "debug-proto" {
